@@ -3,6 +3,7 @@ package interp
 
 import (
 	"fmt"
+	"golang.org/x/tools/go/ssa"
 	"sort"
 	"sync"
 	"time"
@@ -51,6 +52,7 @@ type Shared struct {
 	BudgetHit     string
 	Decisions     int
 	MaxSamples    int
+	ForkSites     map[string]int
 }
 
 type PathSample struct {
@@ -66,7 +68,7 @@ type PathSample struct {
 
 func NewShared(maxPaths int, deadline time.Time) *Shared {
 	s := &Shared{Aborted: map[string]int{}, Findings: map[string]*Finding{}, FindingCount: map[string]int{}, Reach: map[string]int{},
-		Asserts: map[string]int{}, AssertUnknown: map[string]int{}, MaxPaths: maxPaths, Deadline: deadline, MaxSamples: 6}
+		Asserts: map[string]int{}, AssertUnknown: map[string]int{}, ForkSites: map[string]int{}, MaxPaths: maxPaths, Deadline: deadline, MaxSamples: 6}
 	s.cond = sync.NewCond(&s.mu)
 	s.work = [][]int{{}}
 	return s
@@ -140,6 +142,7 @@ type Explorer struct {
 	uf               map[int]int
 	termVars         map[int][]*smt.Term
 	NoSlicing        bool
+	curFn            *ssa.Function
 	AllowTagsInFresh bool
 	taken            []int
 	freshN           int
@@ -420,6 +423,9 @@ func (e *Explorer) Decide(conds []*smt.Term, exhaustive bool) int {
 		}
 		e.Sh.mu.Lock()
 		e.Sh.Decisions++
+		if len(alts) > 0 && e.curFn != nil {
+			e.Sh.ForkSites[e.curFn.String()] += len(alts)
+		}
 		e.Sh.mu.Unlock()
 	}
 	e.pos++
